@@ -36,14 +36,14 @@ def unit_cells(tier, seed, big=False):
              ex("tri_non_lattice", 1), ex("tri_non_lattice", 2), ex("tri_non_lattice", [2, 1]),
              ex("square_lattice", 1, 1), ex("square_lattice", 2, 2), ex("square_lattice", 1, 2), ex("square_lattice", 3, 2),
              {"family": "example", "name": "star_lattice_sheared"}, {"family": "example", "name": "multi_graph"}]
-    nvor = 10 if tier == "quick" else 60
+    nvor = 24 if tier == "quick" else 160
     if big:
         nvor *= 2
     for i in range(nvor):
         n = int(rng.integers(3, 9)) if i % 2 == 0 else int(rng.integers(9, 31))
         cells.append({"family": "voronoi", "style": gen.POINT_STYLES[i % len(gen.POINT_STYLES)], "n": n,
                       "seed": int(rng.integers(0, 2**31)), "shift": bool(i % 2)})
-    ntiled = 4 if tier == "quick" else 16
+    ntiled = 8 if tier == "quick" else 40
     for i in range(ntiled):
         base = {"family": "voronoi", "style": gen.POINT_STYLES[i % 3], "n": int(rng.integers(2, 6)),
                 "seed": int(rng.integers(0, 2**31)), "shift": True}
@@ -271,12 +271,40 @@ def grid_check(ctx):
                 res.violation("k-grid", f"analyse_hk scalar k_num={a} and [a,a] sample different grids", {"kind": "kgrid", "knum": [a, b]})
 
 
+def crosscheck(ctx):
+    """thorough tier: a sample of hk_gauss / ham_gauss matrices re-evaluated inside Coq (vm_compute)"""
+    import c10
+    exe = ctx.exe["c08"]
+    ex, lines, meta = [], [], []
+    for case in cases_for("quick", ctx.seed)[:14]:
+        s = setup(case)
+        if s is None:
+            continue
+        P, E, C, u, J, col = s
+        if len(P) > 8:
+            continue
+        for qa, qb in [(1, 0), (3, 2)]:
+            lines.append(ser_hk(len(P), E, C, J, col, u, 1024, qa, qb))
+            meta.append((len(P), E, C, u, J, col, qa, qb))
+    for (n, E, C, u, J, col, qa, qb), o in zip(meta, run_driver(exe, lines)):
+        v = [unhx(t) for t in o["hk"]]
+        rows = ["[" + "; ".join(f"({c10.gz(v[2 * (a * n + b)])}, {c10.gz(v[2 * (a * n + b) + 1])})" for b in range(n)) + "]" for a in range(n)]
+        Js = "[" + "; ".join(c10.gz(int(Fraction(float(j)) * 1024)) for j in J) + "]"
+        cs = "None" if col is None else "(Some [" + "; ".join(c10.gz(c) for c in col) + "])"
+        us = "[" + "; ".join(c10.gz(x) for x in u) + "]"
+        ex.append((f"matrix_of {n} (hk_gauss {c10.gpairs(E.tolist())} {c10.gpairs(C.tolist())} {Js} {cs} {us} {c10.gz(qa)} {c10.gz(qb)})",
+                   "[" + "; ".join(rows) + "]"))
+    c10.coq_crosscheck(ctx, "c08_cases", "Gen.TilingGen Model.Lattice Model.Tiling Model.Bloch", ex)
+
+
 def run(ctx):
     ctx.res.rule = ("unit cells: regular tilings at size 1 and 2 (4-site honeycomb cell, square 1x1 with self-loops, multi_graph), Voronoi cells 3..30 seeds "
                     "(six point styles), tiled random cells; each with random J (dyadic), random or all-ones u, random colouring or None; tilings 1x1..4x4 "
                     "(all 16, capped at 700 sites); non-trivial = distinct (cell, u, J, colouring)")
     grid_check(ctx)
-    evaluate(ctx, cases_for(ctx.tier, ctx.seed), "K(bloch)", 500 if ctx.tier == "quick" else 1200)
+    evaluate(ctx, cases_for(ctx.tier, ctx.seed), "K(bloch)", 500 if ctx.tier == "quick" else 1500)
+    if ctx.tier != "quick":
+        crosscheck(ctx)
 
 
 def search(ctx):
@@ -287,6 +315,8 @@ def replay(ctx, payload):
     case = payload["case"]
     if case.get("kind") == "kgrid":
         grid_check(ctx)
+    elif case.get("kind") == "crosscheck":
+        crosscheck(ctx)
     else:
         case["sizes"] = [tuple(s) for s in case["sizes"]]
         evaluate(ctx, [case], "replay", 2000)
